@@ -749,7 +749,7 @@ func finish(id string, chk *Check, tier string, seed int64, start time.Time, out
 		"nontrivial_total":    agg.Nontrivial,
 		"distinct_nontrivial": len(distinct),
 		"rule":                chk.Rule,
-		"samples":             agg.Samples,
+		"samples":             append([]any{}, agg.Samples...),
 		"classes":             agg.Labels,
 		"excluded_known":      agg.Excluded,
 		"units":               perUnit,
@@ -792,7 +792,12 @@ func finish(id string, chk *Check, tier string, seed int64, start time.Time, out
 	}
 	_ = os.MkdirAll(evidenceDir, 0o755)
 	b, _ := json.MarshalIndent(ev, "", " ")
-	must(os.WriteFile(filepath.Join(evidenceDir, id+".json"), b, 0o644))
+	if agg.Evaluations > 0 || len(viols) > 0 {
+		must(os.WriteFile(filepath.Join(evidenceDir, id+".json"), b, 0o644))
+	} else {
+		// nothing was evaluated (build failure, every shard inconclusive): the previous evidence stays, this run has none
+		fmt.Printf("%s: no case was evaluated - evidence file left as it was\n", id)
+	}
 
 	// ---- report
 	for _, f := range known {
